@@ -6,15 +6,15 @@ package grid
 // counts as a use of every referenced local blob.
 
 import (
-	"time"
-	"os"
 	"bytes"
 	"context"
 	"fmt"
 	"net/http"
 	"net/http/httptest"
+	"os"
 	"strings"
 	"testing"
+	"time"
 
 	"google.golang.org/grpc/codes"
 	"google.golang.org/grpc/status"
@@ -429,8 +429,18 @@ func enumAssign(k int, alphabet string, fn func([]byte)) {
 func TestC06(t *testing.T) {
 	mode := vlib.Param("MODE", "zstd")
 	withBackend := vlib.Param("BACKEND", "0") == "1"
-	rep := vlib.NewReport("C06", fmt.Sprintf("E4:shapes/%s/backend=%v", mode, withBackend))
+	rep := vlib.NewReport(vlib.Param("PROPERTY", "C06"), fmt.Sprintf("E4:shapes/%s/backend=%v", mode, withBackend))
 	defer rep.Write()
+	if vlib.Param("ONLY", "") == "recency" {
+		// C05: "a use is ... any lookup that hit (..., ActionResult dependency check)": only the recency cells
+		p := newC06Pool(rep, mode, withBackend, 30)
+		defer p.f.close()
+		cfg := fmt.Sprintf("mode=%s backend=%v", mode, withBackend)
+		for i := 0; i < 3; i++ {
+			c06Recency(rep, p, cfg)
+		}
+		return
+	}
 	shard, nshards := vlib.Shard()
 	cfg := fmt.Sprintf("mode=%s backend=%v", mode, withBackend)
 	p := newC06Pool(rep, mode, withBackend, 30)
